@@ -18,7 +18,10 @@ LOCAL INSTANCE SequencesExt
 CONSTANTS CharsM,     \* letters of values and string fields
           MaxPat,     \* maximal length of a single-string pattern
           MaxFld,     \* maximal length of the string in field f
-          D_AndRegexp \* deviation: in the and-modes a regexp condition is also asked for a listed value
+          D_AndRegexp \* former defect D11 (repaired in file.d by "fix: match_mode and / and_prefix must honour
+                      \* regexp conditions"): in the and-modes a regexp condition was also asked for a listed
+                      \* value and therefore never matched.  FALSE in the faithful configurations; TRUE only in
+                      \* MatchFields_mutant_d11.cfg, a spec mutant that TLC must reject (ImplMatchesDecl).
 
 VARIABLE cs           \* [part, kind ("start" | "bucket" | "rule" | "events"), b, rule]
 
@@ -184,6 +187,11 @@ ImplRefinesDecl ==
   IsRule => \A i \in 1..Len(Evs) :
      LET d == Decl(cs.rule, Evs[i]) IN d = "U" \/ Impl(cs.rule, Evs[i]) = d \/ Deviates(cs.rule)
 
+\* the same with no excuse at all: holds for the code as it is now; the D11 mutant must violate it
+ImplMatchesDecl ==
+  IsRule => \A i \in 1..Len(Evs) :
+     LET d == Decl(cs.rule, Evs[i]) IN d = "U" \/ Impl(cs.rule, Evs[i]) = d
+
 \* the (random) order in which the Go map hands over the conditions cannot matter
 CondOrderIrrelevant ==
   IsRule => \A i \in 1..Len(Evs) :
@@ -194,8 +202,8 @@ InvertIsNegation ==
   IsRule => \A i \in 1..Len(Evs) :
      Decl([cs.rule EXCEPT !.invert = ~cs.rule.invert], Evs[i]) = Neg(Decl(cs.rule, Evs[i]))
 
-\* the README's own and-mode example shape (exact list + regexp) must be able to match: it is exactly the
-\* deviation class, i.e. with D_AndRegexp the transcription never matches such a rule
+\* what D11 was: with D_AndRegexp the transcription never matches a rule of the README's own and-mode example
+\* shape (exact list + regexp).  Only meaningful in the mutant; vacuous in the faithful configurations.
 AndRegexpNeverMatches ==
   IsRule /\ Deviates(cs.rule) /\ ~cs.rule.invert => \A i \in 1..Len(Evs) : Impl(cs.rule, Evs[i]) = "F"
 
